@@ -14,10 +14,10 @@ MODULES = ["mirror.rs", "kjson.rs", "gen.rs", "print.rs", "checks.rs", "main.rs"
 
 # property -> [(group, [obligation prefixes that belong to the property])]
 GROUPS = {
-    "C01": [("e2e", ["e2e.members", "e2e.multiplicity"]), ("text_filter", ["text_filter.api_agree"]), ("text_arith", ["text_arith.api_agree"]), ("text_plain", ["text_plain.members", "text_plain.api_agree"]), ("name_lookup", ["process_key.member"]), ("descendant", ["process_descendant.preorder"]),
+    "C01": [("e2e", ["e2e.members", "e2e.multiplicity"]), ("text_filter", ["text_filter.api_agree"]), ("text_arith", ["text_arith.members", "text_arith.api_agree"]), ("text_plain", ["text_plain.members", "text_plain.api_agree"]), ("text_union", ["text_union.members", "text_union.api_agree"]), ("name_lookup", ["process_key.member", "process_key.wrong_member"]), ("descendant", ["process_descendant.preorder"]),
             ("selectors", ["process_selectors.members"])],
-    "C02": [("e2e", ["e2e.order", "e2e.multiplicity"]), ("descendant", ["process_descendant.preorder"]), ("selectors", ["process_selectors.order", "process_selectors.members"])],
-    "C03": [("e2e", ["e2e.path"]), ("pointer_text", ["Pointer::key.text", "Pointer::idx.text"]), ("name_lookup", ["process_key.path"]),
+    "C02": [("e2e", ["e2e.order", "e2e.multiplicity"]), ("text_union", ["text_union.members", "text_union.order", "text_union.api_agree"]), ("descendant", ["process_descendant.preorder"]), ("selectors", ["process_selectors.order", "process_selectors.members"])],
+    "C03": [("e2e", ["e2e.path"]), ("pointer_text", ["Pointer::key.text", "Pointer::idx.text"]), ("name_lookup", ["process_key.path", "process_key.wrong_member"]),
             ("descendant", ["process_descendant.path"]), ("requery", ["path.requery", "path.injective"])],
     "C04": [("cmp_struct", ["eq.structural", "lt.order"]), ("e2e_cmp", ["e2e_cmp.members", "e2e_cmp.multiplicity"])],
     "C05": [("e2e_filter", ["e2e_filter.members", "e2e_filter.multiplicity", "e2e_filter.order"]), ("text_filter", ["text_filter.members", "text_filter.order"])],
@@ -28,7 +28,7 @@ GROUPS = {
     "C11": [("arith", ["process_index.select", "process_slice.select", "process_index.no_panic", "process_slice.no_panic"]),
             ("text_arith", ["text_arith.members", "text_arith.order", "text_arith.no_panic"])],
     "C15": [("e2e", ["e2e.view_independent", "e2e.second_impl.members", "e2e.second_impl.multiplicity", "e2e.second_impl.order"]), ("text_filter", ["text_filter.api_agree", "text_filter.api_view_independent"]),
-            ("text_plain", ["text_plain.api_agree", "text_plain.api_view_independent"]), ("text_arith", ["text_arith.api_view_independent"]),
+            ("text_plain", ["text_plain.api_agree", "text_plain.api_view_independent"]), ("text_arith", ["text_arith.api_view_independent"]), ("text_union", ["text_union.api_view_independent"]),
             ("cmp_struct", ["eq.structural", "lt.order"])],
 }
 # Verus unit -> bounded groups that can produce a failing input for it
